@@ -152,8 +152,8 @@ func cksum(b []byte) uint32 {
 // ---------------------------------------------------------------- snapshots of the implementation's tree
 
 type c18Art struct {
-	title, poster, data             string
-	date                            [8]byte
+	title, poster, data            string
+	date                           [8]byte
 	prev, next, parent, firstChild uint32
 }
 type c18Item struct {
@@ -215,18 +215,19 @@ func (a c18Art) content() string {
 // ---------------------------------------------------------------- a running history
 
 type c18Run struct {
-	c      *Case
-	ts     *TS
-	cc     *hotline.ClientConn
-	file   string
-	toks   []string
-	impl   []string
-	labels []string
-	nPost  int
-	nPanic int
-	nDel   int
-	tid    uint32
-	quiet  bool // skip the follow-up queries of a step (long histories)
+	c       *Case
+	ts      *TS
+	cc      *hotline.ClientConn
+	file    string
+	toks    []string
+	impl    []string
+	labels  []string
+	nPost   int
+	nPanic  int
+	nDel    int
+	tid     uint32
+	quiet   bool // skip the follow-up queries of a step (long histories)
+	nReload int
 }
 
 func (h *c18Run) obs(tok, label, impl string) {
@@ -338,6 +339,17 @@ func (h *c18Run) stepPost(path [][]byte, parent uint32, idField []byte, title, p
 	}
 	// ---- direct monitors on the implementation's own tree
 	h.frame(before, after, strs(path), false, "post-touches-other-category", "post")
+	// a new thread (or a reply to a present article) in an existing item must be stored — in particular
+	// in a category that is empty (fresh, or emptied by deletes) and was reloaded from the file
+	if _, parentThere := bi.arts[parent]; existed && newID == 0 && len(path) > 0 && (len(idField) == 2 || len(idField) == 4) && (parent == 0 || parentThere) {
+		c.Note("path", fmt.Sprintf("%q", strs(path)))
+		c.Note("reply_kind", kind)
+		if len(bi.arts) == 0 {
+			h.viol("post-into-empty-category-fails", fmt.Sprintf("a post into the existing but empty item %q was not stored (%s); reloads so far: %d", strs(path), kind, h.nReload))
+		} else {
+			h.viol("post-refused", fmt.Sprintf("a post into the existing item %q was not stored (%s)", strs(path), kind))
+		}
+	}
 	if newID != 0 {
 		h.nPost++
 		n := ai.arts[newID]
@@ -531,7 +543,25 @@ func (h *c18Run) stepDelItem(path [][]byte) {
 	h.queryList(path)
 }
 
+// stepRestart: a fresh store loaded from the file replaces the running one (server restart).
+func (h *c18Run) stepRestart() {
+	s2, err := mobius.NewThreadedNewsYAML(h.file)
+	o := "done"
+	if err != nil {
+		o = "err"
+		h.c.Note("load_error", err.Error())
+		h.viol("news-file-unloadable", "a fresh store cannot load the news file: "+err.Error())
+	} else {
+		h.ts.News = s2
+		h.ts.Srv.ThreadedNewsMgr = s2
+	}
+	h.nReload++
+	h.c.Dist("restart/" + o)
+	h.obs("R", "restart", o)
+}
+
 func (h *c18Run) stepReload() {
+	h.nReload++
 	err := h.ts.News.Load()
 	o := "done"
 	if err != nil {
